@@ -134,6 +134,21 @@ theorem scan_eq_elems (d : Nat) (fs : List Fmt) (tsh : List Nat) (ish : Option (
   intro hC hU
   exact ho (by rw [hC]; decide) (by rw [hU]; exact Option.some_ne_none _)
 
+/-- A slice set up at a coordinate `b` inside the rank's extent (`setupSlice(b)`: `coordToHandle(b)`
+    for U and C, mask position `b` with `countLeft(b)` as payload handle for B) delivers exactly
+    the fiber's elements at coordinates `≥ b`, in order, with the payloads of the full scan. -/
+theorem slice_from_base (d : Nat) (fs : List Fmt) (tsh : List Nat) (ish : Option (List Nat))
+    (t : List (Int × Tree Int Int d))
+    (hfs : fs.length = d + 1) (hwf : wfB (κ := Int) (ν := Int) (d + 1) t = true)
+    (hin : inShape (d + 1) tsh t = true) (hdims : dimsOK fs tsh ish = true)
+    (F : EFib) (hF : F ∈ (encode hu dflt d fs tsh ish t).fibs.flatten) (b : Nat) (hb : b ≤ F.shape) :
+    (F.scanBase b).map (fun e => (e.1, F.resolve e.2)) = F.elemsSpecFrom b := by
+  have h := encode_fibs_facts hu dflt d fs tsh ish t hfs hwf hin hdims F hF
+  have ho := encode_fibs_osf hu dflt d fs tsh ish t hfs F hF
+  refine cd_scanBase_elems F h ?_ b hb
+  intro hC hU
+  exact ho (by rw [hC]; decide) (by rw [hU]; exact Option.some_ne_none _)
+
 /-- A depth-first walk of the whole encoded tensor through the handle interface — scan the top
     fiber; for every element continue in the fiber its payload designates, the parent's scan
     staying open; on the leaf rank collect the non-zero values — reads back exactly the
@@ -227,6 +242,14 @@ example : content (κ := Int) (ν := Int) (7 : Int) 3 sampleT = [([0, 1, 0], 7),
   decide
 
 example := walk_eq_content (fun _ => true) 7 2 [.B, .C, .U] [3, 3, 3] none sampleT (by decide) (by decide) (by decide) (by decide)
+
+example := slice_from_base (fun _ => false) 0 2 [.C, .B, .U] [3, 3, 3] (some [4, 3, 5]) sampleT (by decide) (by decide)
+  (by decide) (by decide)
+  (((encode (fun _ => false) 0 2 [.C, .B, .U] [3, 3, 3] (some [4, 3, 5]) sampleT).fibs.flatten).headD default) (by decide) 1
+  (by decide)
+
+example : ((((encode (fun _ => false) 0 2 [.B, .B, .U] [3, 3, 3] none sampleT).fibs.flatten).headD default).scanBase 1)
+    = [(some 2, some 1)] := by decide
 
 end Codec
 end Ft
